@@ -324,8 +324,9 @@ fn safe_text() -> BoxedStrategy<String> {
 
 fn file_name() -> BoxedStrategy<String> {
 	prop_oneof![
-		3 => "[a-z][a-z0-9_]{0,10}",
-		1 => "[A-Za-z0-9 ._äö]{1,12}",
+		6 => "[a-z][a-z0-9_]{0,10}",
+		2 => "[A-Za-z0-9 ._äö]{1,12}",
+		1 => "[a-z]{1,3}(\\.key|\\.pem|\\.key\\.pem){1,2}",
 	]
 	.prop_map(|s| {
 		let s = s.trim_matches(|c| c == '.' || c == ' ').to_string();
@@ -381,7 +382,14 @@ fn cli_case() -> BoxedStrategy<CliCase> {
 						let s = format!("{a}{c}{b}");
 						Some(Invalid::NonPrintableCountry(if s.starts_with('-') { format!("A{s}") } else { s }))
 					}),
-				1 => prop_oneof![Just("exämple.com"), Just("bücher.example"), Just("日本.jp"), Just("a\u{80}")].prop_map(|s| Some(Invalid::NonAsciiSan(s.to_string()))),
+				// the same, long: the offending character sits anywhere around the 64/128/256-byte marks
+			1 => (prop::sample::select(vec![60usize, 124, 252]), 0usize..8, prop::sample::select(vec!['é', 'Ä', '中', '\u{80}', '😀', '$']), "[A-Za-z0-9 ]{0,3}").prop_map(|(n, d, c, b)| {
+					Some(Invalid::NonPrintableCountry(format!("{}{c}{c}{b}", "A".repeat(n + d))))
+				}),
+			1 => prop_oneof![Just("exämple.com"), Just("bücher.example"), Just("日本.jp"), Just("a\u{80}")].prop_map(|s| Some(Invalid::NonAsciiSan(s.to_string()))),
+			1 => (prop::sample::select(vec![60usize, 124, 252]), 0usize..8, prop::sample::select(vec!['é', 'ü', '中', '\u{80}', '😀'])).prop_map(|(n, d, c)| {
+					Some(Invalid::NonAsciiSan(format!("{}{c}{c}.example", "a".repeat(n + d))))
+				}),
 				1 => Just(Some(Invalid::RsaOnRing)),
 				1 => Just(Some(Invalid::P521OnRing)),
 			],
@@ -422,8 +430,10 @@ fn cli_case() -> BoxedStrategy<CliCase> {
 
 /// Distinct base names related by `X` / `X.key`: both need the file `X.key.pem`.
 fn collide_case() -> BoxedStrategy<CliCase> {
-	(cli_case(), file_name(), any::<bool>())
-		.prop_map(|(mut c, x, flip)| {
+	(cli_case(), file_name(), 0usize..3, any::<bool>())
+		.prop_map(|(mut c, x, nested, flip)| {
+			// the shorter name may itself end in ".key" (X.key / X.key.key)
+			let x = format!("{x}{}", ".key".repeat(nested));
 			c.invalid = None;
 			if c.build == "ring" && c.alg.as_deref() == Some("--rsa") {
 				c.alg = None;
